@@ -88,6 +88,11 @@ def whitelist : List (String × String) := [
   ("filtering:_get_windowed_sinc_kernel", "kernel"),
   -- constructors initialising their own object
   ("interval_set:IntervalSet.__init__", "self.__dict__"),
+  -- `self.values.flags.writeable = False` (`fix:` of the in-place writes through `ep.start`, `ep[:, 0]`, …): freezes the array
+  -- returned by `_jitfix_iset` in this very constructor; `obj.flags.writeable = False` freezes the view of `t.astype(np.float64)`,
+  -- a copy made two lines above.  Neither changes a value, neither reaches a caller's array
+  ("interval_set:IntervalSet.__init__", "self.values"),
+  ("time_index:TsIndex.__new__", "obj"),
   ("ts_group:TsGroup.__init__", "self.__dict__"),
   -- `data` is rebound to a new dict (`dict(enumerate(data))` / `{keys[j]: data[k] …}`) before the write
   ("ts_group:TsGroup.__init__", "data"),
